@@ -54,6 +54,9 @@ func (s *seqRT) interp() *Interp {
 	return &Interp{
 		W:          s.w,
 		WatchLoads: true,
+		// frame condition for the opaque user-supplied Seq/thunk arguments: of the
+		// coroutine state they only ever replace the pending step (through Bind)
+		HavocKeep: func(key string) bool { return strings.HasPrefix(key, "c.") && key != "c.step" },
 		Inline: func(fn *ssa.Function) bool {
 			return fn.Pkg == seqPkg || (fn.Origin() != nil && fn.Origin().Pkg == seqPkg)
 		},
@@ -73,6 +76,11 @@ func observable(evs []Event) []Event {
 	var out []Event
 	for _, e := range evs {
 		if e.Kind == "load" && !strings.HasSuffix(e.Target, ".step") {
+			continue
+		}
+		// bookkeeping the runtime keeps in its own coroutine state is not observable;
+		// the pending step is
+		if e.Kind == "store" && strings.HasPrefix(e.Target, "c.") && e.Target != "c.step" {
 			continue
 		}
 		out = append(out, e)
